@@ -77,6 +77,7 @@ def run_solver(repo, kinds, solve_for=('tidal',), nondimensionalize=False, slice
         y0 = args[14]
         state['layer'] += 1
         layer = state['layer']
+        state.setdefault('build_calls', []).append(list(args))
         so = Obj(name=f'solver[layer {layer}]', attrs={'success': True, 'message': '', 'status': 0, 'solution_y_ptr': None, '__y0__': y0, '__k__': -1})
 
         def change_y0(ptr, *a, **k):
@@ -186,6 +187,6 @@ def run_solver(repo, kinds, solve_for=('tidal',), nondimensionalize=False, slice
     r.oob = sorted({(name, ext, k, kind_, getattr(node, 'lineno', None) or 0) for name, ext, k, kind_, node in I.OOB_LOG}, key=lambda t_: tuple(str(x) for x in t_))
     so = state['solution_obj']
     r.solution_obj = so
-    r.iface_calls = state.get('iface_calls', []); r.redim_calls = state.get('redim_calls', [])
+    r.iface_calls = state.get('iface_calls', []); r.redim_calls = state.get('redim_calls', []); r.build_calls = state.get('build_calls', [])
     r.final_arrays = {nm: [arrs[nm].store.get(i) for i in range(total)] for nm in arrs}
     return r
